@@ -5,14 +5,17 @@
 package main
 
 import (
+	"encoding/json"
 	"flag"
 	"fmt"
 	"io"
 	"log"
 	"os"
+	"syscall"
 )
 
 type Ctx struct {
+	Current string // file that names the case being executed (for crash attribution)
 	Tier   string
 	Seed   int64
 	Model  Model
@@ -23,6 +26,16 @@ type Ctx struct {
 }
 
 func (c *Ctx) Thorough() bool { return c.Tier == "thorough" }
+
+// Mark records the case about to run; if the process dies (out of memory, fatal error) the
+// check script reports this case as the failing input.
+func (c *Ctx) Mark(cs interface{}) {
+	if c.Current == "" {
+		return
+	}
+	b, _ := json.Marshal(cs)
+	os.WriteFile(c.Current, b, 0o644)
+}
 
 // pick returns q in quick tier and t in thorough tier.
 func (c *Ctx) N(q, t int) int {
@@ -61,12 +74,17 @@ func main() {
 		fmt.Fprintln(os.Stderr, "unknown property", prop)
 		os.Exit(2)
 	}
-	ctx := &Ctx{Tier: *tier, Seed: *seed, Model: Model{*model}, Corpus: *corpus, Replay: *replay,
+	// an address-space limit turns runaway allocations of the code under test into a crash of
+	// this process (attributed to the marked case) instead of exhausting the machine
+	lim := uint64(12) << 30
+	syscall.Setrlimit(syscall.RLIMIT_AS, &syscall.Rlimit{Cur: lim, Max: lim})
+	ctx := &Ctx{Current: *out + ".current", Tier: *tier, Seed: *seed, Model: Model{*model}, Corpus: *corpus, Replay: *replay,
 		Res: NewResult(prop, *tier, *seed), Rng: NewRng(*seed)}
 	if err := f(ctx); err != nil {
 		fmt.Fprintln(os.Stderr, "harness error:", err)
 		os.Exit(3)
 	}
+	os.Remove(ctx.Current)
 	if *out != "" {
 		if err := ctx.Res.Write(*out); err != nil {
 			fmt.Fprintln(os.Stderr, err)
